@@ -15,7 +15,7 @@ from . import rx
 from . import strlemmas
 
 BUILTINS = {
-    "ascii_digits", "fs_content", "markup_safe", "len", "str", "int", "list", "tuple", "dict", "all", "any", "type", "range", "enumerate", "iter", "next",
+    "ascii_digits", "fs_content", "markup_safe", "markup_safe_text", "eval", "len", "str", "int", "list", "tuple", "dict", "all", "any", "type", "range", "enumerate", "iter", "next",
     "open", "bool", "max", "min", "sorted", "repr", "abs", "print", "set", "bytes", "ord", "chr", "sum", "zip",
     "isinstance", "hasattr", "getattr", "setattr", "object", "float",
 }
@@ -286,6 +286,14 @@ def call_builtin(eng, world, n, args, kwargs, node, fr):
         raise OutOfSubset("len of %r" % (a0,))
     if n == "markup_safe":
         return VBool(markup_safe(eng, a0))
+    if n == "markup_safe_text":
+        return VBool(markup_safe_text(eng, a0))
+    if n == "eval":
+        # python: expression evaluation is a sink: logged in the ghost trace `evals`
+        if "evals" not in eng.ghost:
+            raise OutOfSubset("eval() outside a contract that declares the ghost trace 'evals'")
+        eng.ghost["evals"].items.append(a0)
+        return VOpaque("evalresult", z3.Const(eng.fresh_name("evalresult"), U))
     if n == "fs_content":
         # ghost: the bytes of the file at an OS path (a function of the path: files do not change during a request)
         eng.assumptions_used.add("file contents are a function of the path for the duration of a request (no concurrent modification)")
@@ -411,6 +419,15 @@ def call_builtin(eng, world, n, args, kwargs, node, fr):
 
 
 SAFE_FUNS = {"html_escape_q", "pct_enc", "int.to.str", "str.from_int"}
+
+
+def markup_safe_text(eng, v):
+    """markup_safe for element content: html.escape(x, quote=False) is also enough there."""
+    SAFE_FUNS.add("html_escape_nq")
+    try:
+        return markup_safe(eng, v)
+    finally:
+        SAFE_FUNS.discard("html_escape_nq")
 
 
 def markup_safe(eng, v, quote_needed=True):
@@ -567,6 +584,8 @@ def _split_model(eng, s, sep, maxsplit=None):
         eng.assume(n >= 1)
         eng.assume((n == 1) == z3.Not(z3.Contains(z, sepz)))
         eng.assume(z3.Implies(n == 1, efun(z, 0) == z))
+        # the first field is the text before the first separator
+        eng.assume(z3.Implies(n >= 2, efun(z, 0) == z3.SubString(z, 0, z3.IndexOf(z, sepz, 0))))
         if maxsplit is not None:
             if maxsplit != 1:
                 raise OutOfSubset("split maxsplit != 1")
@@ -601,7 +620,10 @@ def _split_model(eng, s, sep, maxsplit=None):
             eng.assume(z3.Implies(z3.And(iz >= 0, iz < n), z3.Contains(z, e)))
         return VStr(e, s.isbytes)
 
-    return VList(None, n, get, "bytes" if s.isbytes else "str")
+    out = VList(None, n, get, "bytes" if s.isbytes else "str")
+    if maxsplit is None:
+        out.split_of = (z, sp, 0, efun)  # (string, separator, number of leading fields dropped, element function)
+    return out
 
 
 LINE_BREAKS = ["\n", "\r", "\x0b", "\x0c", "\x1c", "\x1d", "\x1e", "\x85", "\u2028", "\u2029"]
@@ -723,6 +745,17 @@ def str_method(eng, world, s, m, args, kwargs, node):
                     parts.append(s)
                 parts.append(eng.force(x))
             return eng.concat_strs(parts, s.isbytes)
+        so = getattr(lst, "split_of", None) if isinstance(lst, VList) else None
+        if so is not None and is_conc(z) and z == so[1] and so[2] in (0, 1):
+            # sep.join(x.split(sep)) is x, and sep.join(x.split(sep)[1:]) is x without its first field and the
+            # separator after it (exact: str.split / str.join are inverse for one and the same separator)
+            zz, sp, drop, efun = so
+            if drop == 0:
+                return VStr(zz, s.isbytes)
+            first = efun(zz, 0)
+            rest = z3.SubString(zz, z3.Length(first) + len(sp), z3.Length(zz) - z3.Length(first) - len(sp))
+            eng.assume(z3.Implies(z3.Contains(zz, z3.StringVal(sp)), zz == z3.Concat(first, z3.StringVal(sp), rest)))
+            return VStr(z3.If(z3.Contains(zz, z3.StringVal(sp)), rest, z3.StringVal("")), s.isbytes)
         if isinstance(lst, VList):
             pred = eng.contract.opts.get("join_elem") if eng.contract else None
             if pred and eng.frame_stack and eng.frame_stack[-1] is eng.frame_stack[0]:
@@ -946,6 +979,13 @@ def list_method(eng, world, lst, m, args, kwargs, node):
         eng.assume(zint(lst.n) >= 1)
         lst.n, lst.get = fresh.n, fresh.get
         return NONE
+    if m == "pop" and not lst.concrete() and not args:
+        n = zint(lst.n)
+        if not eng.branch(n >= 1):
+            eng.raise_("IndexError", site=node.lineno)
+        last = lst.get(z3.simplify(n - 1))
+        lst.n = z3.simplify(n - 1)
+        return last
     if m == "pop" and lst.concrete() and not args:
         if not lst.items:
             eng.raise_("IndexError", site=node.lineno)
@@ -1044,6 +1084,10 @@ def opaque_method(eng, world, o, m, args, kwargs, node, fr):
     h = o.attrs.get("methods", {}).get(m)
     if h is not None:
         return h(eng, o, args, kwargs, node)
+    if o.tag == "logger" and m in ("debug", "info", "warning", "error", "exception", "critical"):
+        for a in args:
+            eng.force(a)  # the message is built (and may raise) before the call
+        return NONE
     raise OutOfSubset("method %s on opaque %s" % (m, o.tag))
 
 
@@ -1700,3 +1744,20 @@ def codecs_getreader(eng, world, args, kwargs, node):
     eng.assumptions_used.add("codecs.getreader(enc)(stream, errors=...) returns a text stream over the same bytes")
     o.attrs["call"] = lambda eng2, a, kw, node2: eng2.fresh("obj:TFile", "reader")
     return o
+
+
+# ---- text output stream (simpleTAL writes str, not bytes) --------------------------------------------------
+@objimpl("TextWFile", "write")
+def textwfile_write(eng, world, w, args, kwargs, node):
+    data = eng.force(args[0])
+    if not isinstance(data, VStr) or data.isbytes:
+        eng.raise_("TypeError", site=node.lineno)
+    cur = eng.getattr(w, "written")
+    w.fields["written"] = eng.concat_strs([cur, data], False)
+    if "delta" in w.fields:
+        w.fields["delta"] = eng.concat_strs([w.fields["delta"], data], False)
+    return NONE
+
+
+OBJ_METHODS["TextWFile"] = {"write"}
+SAFE_TEXT_FUNS = {"html_escape_nq"}
